@@ -2130,7 +2130,9 @@ class MapColumnsNode(ViewRepresentation):
         """
         assert isinstance(replacement_map, dict)
         new_sources = [s.replace_leaves(replacement_map) for s in self.sources]
-        return new_sources[0].map_columns(column_remapping=self.column_remapping)
+        column_remapping = dict(self.column_remapping)
+        column_remapping.update({k: None for k in self.column_deletions})  # deletions are part of the step
+        return new_sources[0].map_columns(column_remapping=column_remapping)
 
     def _equiv_nodes(self, other):
         if not isinstance(other, MapColumnsNode):
